@@ -23,6 +23,8 @@ func runC10(c *Ctx) {
 	r10_5(c, "R10.5")
 	r10_6(c, "R10.7")
 	r10_8(c, "R10.8")
+	r10_9(c, "R10.9")
+	r10_10(c, "R10.10")
 	r04_8(c, "R10.6")
 }
 
@@ -205,6 +207,134 @@ func r10_8(c *Ctx, rule string) {
 		c.R.Check(!tainted, rule, c.siteName(call)+"/not-a-pattern-list", c.pos(call), "sorts link targets only", "NewFilterFS sorts a list holding the caller's patterns: '!' patterns move to the front and lose their effect on the patterns they were meant to override")
 	}
 	c.R.OK(rule, c.name(nf)+"/sort-census", c.P.Pos(nf.Pos()), fmt.Sprintf("%d sort call(s) in NewFilterFS, none over a pattern list", n))
+}
+
+// R10.9: every visited directory is remembered for its children.
+func r10_9(c *Ctx, rule string) {
+	c.R.Rule(rule, "filterFS.Walk: when a matcher is configured, a directory entry that was read without error is pushed on the visited-directory stack on every return that lets the walk descend into it (nil), whatever the map function said: its children take their parent match state from the top of that stack")
+	fw := getFilterWalk(c, rule)
+	if fw == nil {
+		return
+	}
+	lit := fw.lit
+	x := c.explorer(lit)
+	// the stack: a captured slice of visitedDir
+	isStackCell := func(v ssa.Value) bool {
+		fv, ok := v.(*ssa.FreeVar)
+		return ok && strings.HasSuffix(eng.TypeStr(fv.Type()), "[]fsutil.visitedDir")
+	}
+	pushesIn := func(f *ssa.Function) bool {
+		found := false
+		eng.Instrs(f, func(in ssa.Instruction) {
+			if st, ok := in.(*ssa.Store); ok && isStackCell(st.Addr) {
+				if call, isCall := eng.Canon(st.Val).(*ssa.Call); isCall && c.P.CalleeName(call) == "builtin:append" {
+					found = true
+				}
+			}
+		})
+		return found
+	}
+	isPush := func(in ssa.Instruction) bool {
+		switch v := in.(type) {
+		case *ssa.Defer:
+			if mc, ok := v.Call.Value.(*ssa.MakeClosure); ok {
+				if f, ok := mc.Fn.(*ssa.Function); ok {
+					return pushesIn(f)
+				}
+			}
+		case *ssa.Store:
+			if isStackCell(v.Addr) {
+				if call, isCall := eng.Canon(v.Val).(*ssa.Call); isCall && c.P.CalleeName(call) == "builtin:append" {
+					return true
+				}
+			}
+		}
+		return false
+	}
+	as := map[string]bool{}
+	for _, call := range c.P.CallsTo(lit, "(io/fs.DirEntry).IsDir") {
+		if cl, ok := call.(*ssa.Call); ok {
+			as[x.KeyAtEntry(cl)] = true
+		}
+	}
+	// the walk reported no error for this entry; the entry itself is present
+	for _, p := range lit.Params {
+		switch eng.TypeStr(p.Type()) {
+		case "error":
+			as["(p:"+p.Name()+"==nil)"] = true
+		case "io/fs.DirEntry":
+			as["(p:"+p.Name()+"==nil)"] = false
+		}
+	}
+	// both matchers are configured (tested directly, or through a flag
+	// computed once from those tests)
+	isMatcherSet := func(v ssa.Value) bool {
+		bo, ok := v.(*ssa.BinOp)
+		if !ok || bo.Op != token.NEQ {
+			return false
+		}
+		k, isC := bo.Y.(*ssa.Const)
+		return isC && k.IsNil() && (isFieldLoad(bo.X, "fsutil.filterFS.includeMatcher") || isFieldLoad(bo.X, "fsutil.filterFS.excludeMatcher"))
+	}
+	eng.Instrs(lit, func(in ssa.Instruction) {
+		bo, ok := in.(*ssa.BinOp)
+		if !ok || (bo.Op != token.EQL && bo.Op != token.NEQ) {
+			return
+		}
+		if k, isC := bo.Y.(*ssa.Const); isC && k.IsNil() && (isFieldLoad(bo.X, "fsutil.filterFS.includeMatcher") || isFieldLoad(bo.X, "fsutil.filterFS.excludeMatcher")) {
+			as[x.KeyAtEntry(bo)] = bo.Op == token.NEQ
+		}
+	})
+	for _, k := range c.trueCellKeys(lit, x, isMatcherSet) {
+		as[k] = true
+	}
+	// deferred pushes of a literal test the directory flag themselves
+	hit, und := c.SuccessAvoiding(lit, nil, as, nil, isPush)
+	switch {
+	case und:
+		c.R.Undecided(rule, c.name(lit)+"/visited-directory-always-pushed", c.P.Pos(lit.Pos()), "state limit")
+	case hit != nil:
+		c.R.Fail(rule, c.name(lit)+"/visited-directory-always-pushed", c.pos(hit.Instr), "a directory entry can be left with a nil result (the walk descends into it) without having been pushed on the visited-directory stack: its children read the match state of their grandparent; path "+eng.BlockTrace(lit, hit.Trace))
+	default:
+		c.R.OK(rule, c.name(lit)+"/visited-directory-always-pushed", c.P.Pos(lit.Pos()), "every descended directory is pushed (or its push is deferred) before the callback returns nil")
+	}
+}
+
+// R10.10: the include flag is computed from the merged pattern list.
+func r10_10(c *Ctx, rule string) {
+	c.R.Rule(rule, "NewFilterFS: whenever an include matcher is built (from the caller's patterns and/or resolved follow-paths) its patterns are scanned for the prefix-only flag before the filter is returned")
+	nf := c.Fn(rule, "fsutil.NewFilterFS")
+	if nf == nil {
+		return
+	}
+	var news []*ssa.Call
+	for _, call := range c.P.CallsTo(nf, "github.com/moby/patternmatcher.New") {
+		if cl, ok := call.(*ssa.Call); ok {
+			news = append(news, cl)
+		}
+	}
+	c.R.Floor(rule, "pattern matcher constructions in NewFilterFS", len(news), 2)
+	for i, nw := range news {
+		nw := nw
+		ek, _, _ := c.errValueOf(nw)
+		isScan := func(in ssa.Instruction) bool {
+			call, ok := in.(*ssa.Call)
+			if !ok || c.P.CalleeName(call) != "(*github.com/moby/patternmatcher.PatternMatcher).Patterns" {
+				return false
+			}
+			return c.DerivesFrom(call.Call.Args[0], func(y ssa.Value) bool { return y == ssa.Value(nw) }, 6)
+		}
+		hit, und := c.SuccessAvoiding(nf, nw, map[string]bool{"(" + ek + "==nil)": true}, nil, isScan)
+		con := fmt.Sprintf("%s/matcher#%d/patterns-scanned", c.name(nf), i+1)
+		switch {
+		case und:
+			c.R.Undecided(rule, con, c.pos(nw), "state limit")
+		case hit != nil:
+			c.R.Fail(rule, con, c.pos(hit.Instr), "a matcher is built but its patterns are not always scanned for wildcards (the scan is skipped under some option combination, e.g. follow-paths without include patterns): the prefix-only flag stays true and directories are pruned by literal prefix although a pattern has wildcards")
+		default:
+			c.R.OK(rule, con, c.pos(nw), "the patterns of this matcher are scanned on every path to the returned filter")
+		}
+	}
 }
 
 // R10.7: how the two prefix-only flags are computed.
